@@ -274,6 +274,9 @@ class OpCase:
                 out.rejected = "%s: %s" % (type(e).__name__, e)
                 return out
             raise
+        if not all(isinstance(x, T()) for x in as_list(o)):
+            out.fact("the operation returns a Tensor", False, "it returned %s" % ([type(x).__name__ for x in as_list(o)],))
+            return out
         if illegal:
             shapes = [tuple(x.shape) for x in as_list(o)]
             out.fact("rejects-illegal-arguments", False,
